@@ -204,6 +204,8 @@ MUTANTS = [
     ('C08', 'len-ignores-batch', (R, MANAGER, "        return len(self._queue) + len(self._priority_queue)", "        return len(self._queue)"), 'C08.h'),
     ('C06', 'tasks-test-only-with-result', (R, MANAGER, "            if isinstance(event, generate_events) and self._tasks:\n                event.reduce_time_left(TIMEOUT)\n\n            if event.stopped:", "            if value is not None and isinstance(event, generate_events) and self._tasks:\n                event.reduce_time_left(TIMEOUT)\n\n            if event.stopped:"), 'C06.h'),
     ('C11', 'eof-closes-at-once', (R, SOCKETS, "            else:\n                self.close(sock)\n        except OSError as e:", "            else:\n                self._close(sock)\n        except OSError as e:"), 'C11.e'),
+    ('C03', 'preen-derefs-descriptor', (R, POLLERS, "                    select.select([sock], [sock], [sock], 0)\n", "                    os.fstat(sock.fileno())\n"), 'C03.h'),
+    ('C14', 'net-reads-parser', (R, HTTP, "            req = wrappers.Request(fevent.args[0], server=self._server)\n", "            parser = self._buffers.get(fevent.args[0])\n            req = wrappers.Request(fevent.args[0], parser.get_method() if parser else 'GET', server=self._server)\n"), 'C14.c'),
 ]
 
 # behaviour-preserving edits: the check of the property must stay silent
@@ -255,4 +257,5 @@ TWINS = [
     ('C01', 'twin-addhandler-local-table', (R, MANAGER, "            for name in method.names:\n                self._handlers.setdefault(name, set()).add(method)\n", "            for evname in method.names:\n                self._handlers.setdefault(evname, set()).add(method)\n"), None),
     ('C19', 'twin-dump-key-order', (R, NODE_UTILS, "        'id': id,\n        'name': e.name,\n", "        'name': e.name,\n        'id': id,\n"), None),
     ('C14', 'twin-error-status-first', (R, 'circuits/web/errors.py', "        self.response.close = True\n        self.response.status = self.code\n", "        self.response.status = self.code\n        self.response.close = True\n"), None),
+    ('C03', 'twin-preen-guarded-deref', (R, POLLERS, "                    select.select([sock], [sock], [sock], 0)\n", "                    select.select([sock], [sock], [sock], 0)\n                    if hasattr(sock, 'fileno'):\n                        sock.fileno()\n"), None),
 ]
